@@ -808,6 +808,31 @@ def report_corr(ctx, name, bad, cases, T, mat):
                               % (name, json.dumps(case)[:700], cases[i][1]))
 
 
+def write_trees(ctx, T, tree_lits):
+    """coq/Gen/C17_trees_<scratch name>.v : Definition c17_trees := [<file systems of the generated trees>], compiled here
+    and removed after the two correspondences that use it."""
+    import fcntl
+    import subprocess
+    name = "C17_trees_" + re.sub(r"\W", "_", os.path.basename(T))
+    base = os.path.join(fw.COQ, "Gen", name)
+    os.makedirs(os.path.dirname(base), exist_ok=True)
+    with open(base + ".v", "w") as f:
+        f.write("(* scratch file written by harness/props/c17.py; removed at the end of the run *)\n"
+                "From Coq Require Import ZArith NArith List Bool String.\n"
+                "Require Import Webob.Lib.Val Webob.Model.C17_path Webob.Model.C17_static.\n"
+                "Import ListNotations.\nLocal Open Scope string_scope.\n"
+                "Definition c17_trees : list (list (str * node)) := %s.\n" % clist(tree_lits))
+    with open(os.path.join(fw.BUILD, "coq.lock"), "w") as lk:
+        fcntl.flock(lk, fcntl.LOCK_EX)
+        p = subprocess.run(["timeout", "900", "coqc", "-Q", fw.COQ, "Webob", "-w", "-all", base + ".v"],
+                           capture_output=True, text=True, cwd=fw.COQ)
+    if p.returncode != 0:
+        ctx.broken.append("scratch tree file did not compile: " + (p.stderr or p.stdout)[-400:])
+    files = [base + e for e in (".v", ".vo", ".vok", ".vos", ".glob")] + \
+        [os.path.join(fw.COQ, "Gen", "." + name + ".aux")]
+    return "Webob.Gen." + name, files
+
+
 def coqchk(ctx):
     """Thorough tier: re-check the compiled closure of Props/C17.vo with the stand-alone checker."""
     import fcntl
@@ -917,7 +942,7 @@ def _run(ctx, T, mat):
 
     # ------------------------------------------------------------------ correspondence 3+4: dirapp_call and serve
     rng = ctx.sub_rng("dirapp")
-    per_tree = ctx.scale(45, 160)
+    per_tree = ctx.scale(45, 120)
     dcases, scases, tree_lits = [], [], []
     for ti, inside in enumerate(insides):
         tree = full_tree(inside, rich if ti % 2 == 0 else rich2)
@@ -969,18 +994,26 @@ def _run(ctx, T, mat):
                 flit = "(fun CONTENT : bytes => mkFreq %s %s %s)" % (cstr(meth), crange(rp), ckind(kind))
                 lit2 = "(%d%%nat, %s, %s, %s, %s)" % (ti, cidx(idx), cbool(hide), cdreq(pi, purl, qs), flit)
                 scases.append((lit2, obs, dict(case_dir(tree, idx, hide, url), method=meth, range=rh, bs=bs, wrapper=wr)))
-    trees_lit = clist(tree_lits)
-    fn = ("(let trees := %s in fun c : nat * option str * bool * dreq => let '(ti, idx, hide, rq) := c in "
-          "v_dres (dirapp_call %s idx hide (fs_of (nth ti trees [])) rq))" % (trees_lit, root_lit))
-    bad = ctx.corr("dirapp-call", IMPORTS, fn, dcases, in_type="(nat * option str * bool * dreq)", shard=250)
-    report_corr(ctx, "dirapp-call", bad, dcases, T, mat)
-    # serve: a KWrapper's chunks are chunk_by sizes (content of the file that is served), computed inside the model
-    fn = ("(let trees := %s in fun c : nat * option str * bool * dreq * (bytes -> freq) => let '(ti, idx, hide, rq, fq) := c in "
-          "let fs := fs_of (nth ti trees []) in "
-          "let content := match dirapp_call %s idx hide fs rq with DServe p => match fs p with File _ b => b | _ => [] end | _ => [] end in "
-          "v_resp (serve %s idx hide fs rq (fq content)))" % (trees_lit, root_lit, root_lit))
-    bad = ctx.corr("serve", IMPORTS, fn, scases, in_type="(nat * option str * bool * dreq * (bytes -> freq))", shard=250)
-    report_corr(ctx, "serve", bad, scases, T, mat)
+    # the generated trees are compiled once (Coq parses big literals slowly) into a scratch Gen file
+    tmod, tfiles = write_trees(ctx, T, tree_lits)
+    try:
+        fn = ("(fun c : nat * option str * bool * dreq => let '(ti, idx, hide, rq) := c in "
+              "v_dres (dirapp_call %s idx hide (fs_of (nth ti c17_trees [])) rq))" % root_lit)
+        bad = ctx.corr("dirapp-call", IMPORTS + [tmod], fn, dcases, in_type="(nat * option str * bool * dreq)", shard=250)
+        report_corr(ctx, "dirapp-call", bad, dcases, T, mat)
+        # serve: a KWrapper's chunks are chunk_by sizes (content of the file that is served), computed inside the model
+        fn = ("(fun c : nat * option str * bool * dreq * (bytes -> freq) => let '(ti, idx, hide, rq, fq) := c in "
+              "let fs := fs_of (nth ti c17_trees []) in "
+              "let content := match dirapp_call %s idx hide fs rq with DServe p => match fs p with File _ b => b | _ => [] end | _ => [] end in "
+              "v_resp (serve %s idx hide fs rq (fq content)))" % (root_lit, root_lit))
+        bad = ctx.corr("serve", IMPORTS + [tmod], fn, scases, in_type="(nat * option str * bool * dreq * (bytes -> freq))", shard=250)
+        report_corr(ctx, "serve", bad, scases, T, mat)
+    finally:
+        for f in tfiles:
+            try:
+                os.remove(f)
+            except OSError:
+                pass
 
     # ------------------------------------------------------------------ correspondence 5: FileApp on single files
     rng = ctx.sub_rng("fileapp")
